@@ -463,6 +463,9 @@ TIES = {
                       cxx='the delegating layers: call_matcher::is_satisfied / is_saturated / sequence_cost, sequence_handler<N>::validate / order / '
                           'retire / retire_predecessors, sequence_matchers<0>::order, lifetime_monitor::is_satisfied / is_saturated, '
                           'sequence::is_completed, sequence_matcher::is_satisfied, condition::check, get_min_calls / get_calls'),
+    'IsNull': dict(props=['C18'], gen=['IsNullOverloads', 'IsNullRedirect'],
+                   theorems=['is_null_table_tie', 'is_null_sem', 'matcher_is_not_null', 'array_is_not_null', 'reference_wrapper_unwrapped'],
+                   cxx='the overload set of is_null / is_null_redirect (mock.hpp): the null test in front of every printed value'),
     'ReturnPath': dict(props=['C08', 'C17'], gen=['ReturnHandlerCall', 'TraceReturnVoid', 'TraceReturnValue', 'ThrowHandlerCall'],
                        theorems=['return_path_tie', 'return_evaluated_once', 'throw_path_tie', 'throw_evaluated_once'],
                        cxx='return_handler_t::call and the two trace_return<Ret> helpers (mock.hpp): the RETURN functor is evaluated once'),
